@@ -89,13 +89,14 @@ func refPositions(s string) map[int]refPos {
 var c44docs = []string{
 	"echo hello\n", "put $x\r\nput $y\r\n", "e:ls | each {|x| put $x }\r", "fn f {\n  put 中文 😀\n}\nf\n",
 	"put [\n", "echo 'unterminated\n", "put 😀😀 $", "}\r\n{", "", "\r\n\r\n", "\n\r", "var a = (+ 1 2)\necho $a\n",
+	"echo \"\\😀\"\n", "put a\r\nput \"\\x𐀀\" \"\\中\"\r\n", "\U0010FFFF x\n😀 \"\\c😀", "put \"\\é\\😀\" ]😀",
 	"echo é | put \xff\n", "if $true { put a } else { put b }\r\necho\tdone", "put $pid\nput $nonexistent:x\n",
 }
 
 func genC44Text(w *simrt.Tape) string {
 	t := c44docs[w.Draw(len(c44docs))]
 	for n := w.Draw(3); n > 0; n-- {
-		frag := []string{"\r\n", "\n", "\r", "😀", "é", "$", "{", "'", " put x", "中", "|", "]"}[w.Draw(12)]
+		frag := []string{"\r\n", "\n", "\r", "😀", "é", "$", "{", "'", " put x", "中", "|", "]", "\"\\", "\"", "\U0010FFFF", "\\x"}[w.Draw(16)]
 		k := 0
 		if len(t) > 0 {
 			k = w.Draw(len(t) + 1)
@@ -374,15 +375,9 @@ func runC44(c *Ctx) {
 	// Diagnostics: every publication equals the parse errors of some text sent
 	// for that document; one publication per open/change.
 	for uri, ts := range texts {
-		var allowed [][]refRange
+		var allowed [][]refRangeAlt
 		for _, t := range ts {
-			rs, ok := refDiagnostics(uri, t)
-			if ok {
-				allowed = append(allowed, rs)
-			} else {
-				allowed = append(allowed, nil)
-				c.Probe("parse-error-boundary-inside-crlf")
-			}
+			allowed = append(allowed, refDiagnostics(uri, t, func(what string) { c.Probe(what) }))
 		}
 		pubs := published[uri]
 		if len(pubs) != len(ts) {
@@ -390,16 +385,13 @@ func runC44(c *Ctx) {
 		}
 		for _, p := range pubs {
 			match := false
-			for i, a := range allowed {
-				if a == nil && len(refDiagnosticsCount(uri, ts[i])) == len(p) {
-					match = true // not comparable position by position
-				}
-				if a != nil && sameRanges(a, p) {
+			for _, a := range allowed {
+				if matchRanges(a, p) {
 					match = true
 				}
 			}
 			if !match {
-				c.Violation("diagnostics", "document %s: published diagnostics ranges %v are not the parse-error ranges of any text sent for it (allowed: %v)", uri, p, allowed)
+				c.Violation("diagnostics", "document %s: published diagnostics ranges %v are not the parse-error ranges of any text sent for it (allowed, per text and error, start and end positions: %v)", uri, p, allowed)
 			}
 		}
 	}
@@ -407,43 +399,72 @@ func runC44(c *Ctx) {
 
 type refRange struct{ Start, End refPos }
 
-func sameRanges(a, b []refRange) bool {
+// refRangeAlt is what the reference allows for one parse error: the start and
+// end positions it may be published with. Offsets at character boundaries
+// have exactly one position. The parser also reports one-BYTE ranges at
+// multi-byte characters, whose end lies inside the character: such an offset
+// may be published as either boundary of the character it lies in, never as a
+// position inside it (between the halves of a surrogate pair). An offset
+// between the CR and LF of a CRLF pair has no reference position (empty set:
+// not compared).
+type refRangeAlt struct{ Starts, Ends []refPos }
+
+func matchRanges(a []refRangeAlt, b []refRange) bool {
 	if len(a) != len(b) {
 		return false
 	}
+	in := func(set []refPos, p refPos) bool {
+		if len(set) == 0 {
+			return true
+		}
+		for _, q := range set {
+			if q == p {
+				return true
+			}
+		}
+		return false
+	}
 	for i := range a {
-		if a[i] != b[i] {
+		if !in(a[i].Starts, b[i].Start) || !in(a[i].Ends, b[i].End) {
 			return false
 		}
 	}
 	return true
 }
 
-func refDiagnosticsCount(uri, text string) []int {
-	_, err := parse.Parse(parse.Source{Name: uri, Code: text}, parse.Config{})
-	var out []int
-	for range parse.UnpackErrors(err) {
-		out = append(out, 0)
-	}
-	return out
-}
-
-// refDiagnostics converts the parse-error ranges of text with the reference
-// walk; ok is false if a boundary falls between CR and LF (no reference position).
-func refDiagnostics(uri, text string) ([]refRange, bool) {
+func refDiagnostics(uri, text string, probe func(string)) []refRangeAlt {
 	_, err := parse.Parse(parse.Source{Name: uri, Code: text}, parse.Config{})
 	ref := refPositions(text)
-	rs := []refRange{}
+	alts := func(o int) []refPos {
+		if p, ok := ref[o]; ok {
+			return []refPos{p}
+		}
+		if o > 0 && o < len(text) && text[o-1] == '\r' && text[o] == '\n' {
+			probe("parse-error-boundary-inside-crlf")
+			return nil
+		}
+		// inside a multi-byte character: its two boundaries
+		lo, hi := o, o
+		for lo > 0 && !utf8.RuneStart(text[lo]) {
+			lo--
+		}
+		for hi < len(text) && !utf8.RuneStart(text[hi]) {
+			hi++
+		}
+		a, ok1 := ref[lo]
+		b, ok2 := ref[hi]
+		if !ok1 || !ok2 {
+			return nil
+		}
+		probe("parse-error-boundary-inside-character")
+		return []refPos{a, b}
+	}
+	rs := []refRangeAlt{}
 	for _, e := range parse.UnpackErrors(err) {
 		r := e.Range()
-		a, ok1 := ref[r.From]
-		b, ok2 := ref[r.To]
-		if !ok1 || !ok2 {
-			return nil, false
-		}
-		rs = append(rs, refRange{a, b})
+		rs = append(rs, refRangeAlt{alts(r.From), alts(r.To)})
 	}
-	return rs, true
+	return rs
 }
 
 func c44frame(m *c44msg) []byte {
